@@ -151,6 +151,10 @@ impl DiskRowset {
             DataValue::Int32(begin_val) => {
                 let mut pre_block_first_key = 0;
                 for index in column_index.indexes() {
+                    // without `record_first_key` there is no key to seek by: scan from the start
+                    if index.first_key.is_empty() {
+                        break;
+                    }
                     let mut first_key: &[u8] = &index.first_key;
                     let first_val: i32 = PrimitiveFixedWidthEncode::decode(&mut first_key);
 
